@@ -509,6 +509,56 @@ def part_predicates(res, script, post, tier, budget, rnd):
         res.sample({"game": "n=3 lattice", "values": [rs(x) for x in games[4321]]}, limit=6)
 
 
+def part_aliasing(res, script, post, tier, budget, rnd):
+    """Aliasing probe (real code only): a caller edits, in place, the arrays the id-array functions handed out; later
+    enumerations and predicates must be unaffected (the functions return fresh arrays — a shared / memoised one would be
+    corrupted by this).  The per-n structure cache of bounds.py is NOT touched: it is documented as shared."""
+    from incomplete_cooperative import coalition_ids as cid
+    from incomplete_cooperative.game import IncompleteCooperativeGame
+    from incomplete_cooperative.game_properties import is_monotone_decreasing, is_superadditive
+    for n in (2, 3, 4):
+        N = 2 ** n
+        for m in range(0, n + 1):
+            a = cid.get_all_coalitions(m)
+            a |= 1                                   # "all coalitions containing player 0", written in place
+        for c in range(N):
+            cid.sub_coalitions(np.int32(c), n)[...] = 0
+            cid.super_coalitions(np.int32(c), n)[...] = N - 1
+            cid.players(np.int32(c), n)[...] = 0
+        res.count("aliasing:arrays-edited-in-place")
+        for c in range(N):
+            sub = sorted(int(x) for x in cid.sub_coalitions(np.int32(c), n))
+            sup = sorted(int(x) for x in cid.super_coalitions(np.int32(c), n))
+            res.evaluations += 2
+            if sub != [x for x in range(N) if x & c == x] or sup != [x for x in range(N) if x & c == c]:
+                res.violation("after a caller edited a returned id array in place, sub/super-coalition enumeration is wrong "
+                              "(the arrays are shared between calls)", {"n": n, "coalition": c, "sub": sub, "super": sup},
+                              key="aliasing:enumeration")
+                break
+        if list(int(x) for x in cid.get_all_coalitions(n)) != list(range(N)):
+            res.violation("get_all_coalitions returns an array a previous caller edited", {"n": n}, key="aliasing:get_all_coalitions")
+        # a game violating superadditivity only at a pair of coalitions without player 0, and one violating monotonicity there
+        g = IncompleteCooperativeGame(n)
+        vals = np.zeros(N)
+        if n >= 3:
+            vals[2] = vals[4] = 1.0
+            vals[6] = 1.0                           # v({1}) + v({2}) = 2 > 1 = v({1,2})
+            vals[7:] = 5.0
+            vals[3] = vals[5] = 1.0
+            g.set_values(vals)
+            res.evaluations += 1
+            if is_superadditive(g):
+                res.violation("is_superadditive accepts v({1})+v({2}) > v({1,2}) after a caller edited a returned id array in place",
+                              {"n": n, "values": vals.tolist()}, key="aliasing:is_superadditive")
+            vals2 = -np.array([bin(x).count("1") for x in range(N)], dtype=float)
+            vals2[6] = 0.0                          # v({1,2}) = 0 > v({1}) = −1: not monotone non-increasing
+            g2 = IncompleteCooperativeGame(n)
+            g2.set_values(vals2)
+            if is_monotone_decreasing(g2):
+                res.violation("is_monotone_decreasing accepts v({1,2}) > v({1}) after a caller edited a returned id array in place",
+                              {"n": n, "values": vals2.tolist()}, key="aliasing:is_monotone_decreasing")
+
+
 def run(tier: str, budget: Budget, rnd, arg) -> StreamResult:
     res = StreamResult("bits")
     script = Script()
@@ -518,6 +568,7 @@ def run(tier: str, budget: Budget, rnd, arg) -> StreamResult:
     for f, share in parts:
         sub = Budget(min(budget.left(), total * share + 1.0))
         f(res, script, post, tier, sub, rnd)
+    part_aliasing(res, script, post, tier, budget, rnd)      # last: it deliberately scribbles on returned arrays
     for b in script.diff(_compare):
         res.disagree("bits answer", {k: b[k] for k in ("line", "impl", "model", "ctx", "kind")})
     outs = script.outs
